@@ -258,21 +258,16 @@ func runC10Case(c kit.Case, n int) (v kit.Verdict) {
 }
 
 func TestVerifC10(t *testing.T) {
-	cases, err := kit.LoadCases(kit.Env("VERIF_CASES", ""))
-	if err != nil {
-		t.Fatal(err)
-	}
 	rep, err := kit.NewReporter(kit.Env("VERIF_OUT", ""))
 	if err != nil {
 		t.Fatal(err)
 	}
 	defer rep.Close()
 	n := kit.EnvInt("VERIF_SLOTS", 3)
-	shard, shards := kit.EnvInt("VERIF_SHARD", 0), kit.EnvInt("VERIF_SHARDS", 1)
-	for _, c := range cases {
-		if c.Index%shards != shard {
-			continue
-		}
+	if err := kit.StreamCases(kit.Env("VERIF_CASES", ""), func(c kit.Case) error {
 		rep.Put(runC10Case(c, n))
+		return nil
+	}); err != nil {
+		t.Fatal(err)
 	}
 }
